@@ -622,3 +622,33 @@ def aead_ctor_units(prop):
         out.append(Unit(f'{prop}.aead_decrypt[{cls}]', ADAPTERS_PY, source.resolve_method(ADAPTERS_PY, cls, 'decrypt'),
                         aead_dec_setup_for(cls), aead_dec_post(prop, cls), prop=prop))
     return out
+
+
+# ---- utils.bytes_to_human: the sizes the listings and the delete prompt print ------------------------------------------------------------
+def b2h_setup(b):
+    v = b.sym('value', INT)
+    b.assume(v.z >= 0)
+    b.bind('prec', 2)
+
+
+def b2h_post(prop):
+    def post(res):
+        b = res.builder
+        v = b.st.lookup('value').z
+        rv = z3.ToReal(v)
+        # decimal units; G is the largest (everything from 10**9 bytes up is counted in G)
+        D = z3.If(v < 10 ** 3, z3.RealVal(1), z3.If(v < 10 ** 6, z3.RealVal(10 ** 3), z3.If(v < 10 ** 9, z3.RealVal(10 ** 6), z3.RealVal(10 ** 9))))
+        U = z3.If(v < 10 ** 3, z3.StringVal('B'), z3.If(v < 10 ** 6, z3.StringVal('K'), z3.If(v < 10 ** 9, z3.StringVal('M'), z3.StringVal('G'))))
+        rnd = res.interp.uf('round_n', REAL, INT, REAL)
+        fmt = res.interp.uf('fmt_-1_g', REAL, STR)
+        for p in res.paths:
+            ok = p.kind == 'return'
+            res.oblige(p, f'{prop}.bytes_to_human.number_in_the_unit_of_its_magnitude', z3.BoolVal(False) if not ok else
+                       sym.lift(p.value, STR).z == z3.Concat(fmt(rnd(rv / D, z3.IntVal(2))), U))
+    return post
+
+
+def bytes_to_human_units(prop):
+    u = Unit(f'{prop}.bytes_to_human', UTILS_PY, 'bytes_to_human', b2h_setup, b2h_post(prop), prop=prop)
+    u.native = ('bytes_to_human',)
+    return [u]
